@@ -143,6 +143,36 @@ func validateStubs(ld *Loaded, cfg *Config) (map[string]int, error) {
 			}
 			rep["fmt.Sprintf"]++
 		}
+		for _, f := range []float64{0, 0.1, 2.5, 1e21, 1e-7, -3.25, 123456789.125, 1e20} {
+			if got, want := fmtFloatV(f, 64), fmt.Sprintf("%v", f); got != want {
+				err = fmt.Errorf("%%v of float64 %g: model %q real %q", f, got, want)
+				return
+			}
+			f32 := float32(f)
+			if got, want := fmtFloatV(float64(f32), 32), fmt.Sprintf("%v", f32); got != want {
+				err = fmt.Errorf("%%v of float32 %g: model %q real %q", f32, got, want)
+				return
+			}
+			rep["fmt %v of floats"]++
+		}
+		for _, s := range inputs {
+			ascii := true
+			for i := 0; i < len(s); i++ {
+				if s[i] >= 0x80 {
+					ascii = false
+				}
+			}
+			if !ascii {
+				continue
+			}
+			// force the symbolic path of quoteSym with constant terms: it folds to the same bytes
+			bs, ok := in.quoteSymForce(in.mkStr(s))
+			if !ok || string(concreteBytes(bs)) != strconvQuote(s) {
+				err = fmt.Errorf("strconv.Quote(%q): model %q real %q", s, concreteBytes(bs), strconvQuote(s))
+				return
+			}
+			rep["strconv.Quote(ASCII)"]++
+		}
 		// append growth
 		for _, c := range []struct{ oldCap, newLen int; esz int64; noscan bool; want int }{} {
 			_ = c
